@@ -9,6 +9,13 @@
   the caches: `LoaderCache` → `Loader._pipeline_cache` → `file_cache`, `step_cache`, and the
   `Pipeline` objects that are run again and again across edits and clears — section "Layers").
 
+  Everything up to section "progress" is SAFETY. Sections added after the first audit:
+  "progress" (deadlock freedom and termination of the one-lock system, every operation returns —
+  `C13_Progress.lean`), "clear_pipes" (`LoaderCache.clear_pipes` next to look-ups, as repaired and as it
+  was — `C13_Scan.lean`), "two locks" (`CacheTS.Nest`: the pipeline cache's creator looks up `file_cache` —
+  `C13_Nest.lean`, `C13_SpecU.lean`), "add_sys_path, one set operation at a time" (`C13_SysPathF.lean`),
+  "WorldOk for the file loader" (`C13_Resolve.lean`).
+
   Histories are newest-first; "`(e :: h) <:+ H`" reads "at the moment `e` happened the history
   was `h`".
 -/
@@ -16,6 +23,12 @@ import Props.Lemmas.C13_Inv
 import Props.Lemmas.C13_Spec
 import Props.Lemmas.C13_SysPath
 import Props.Lemmas.C13_Stack
+import Props.Lemmas.C13_Progress
+import Props.Lemmas.C13_SpecU
+import Props.Lemmas.C13_Scan
+import Props.Lemmas.C13_Nest
+import Props.Lemmas.C13_SysPathF
+import Props.Lemmas.C13_Resolve
 
 namespace Pypyr.C13
 open Pypyr.CacheTS
@@ -532,5 +545,490 @@ def exSpProg : Tid → List Nat
   | _ => []
 example : (spRun (fun p => p == 7) (spInit [1] exSpProg)
     [0, 1, 0, 1, 0, 1, 0, 0, 0, 0, 1, 1, 1, 1, 0, 0, 0]).sysPath = [1, 7] := by decide
+
+
+/-! ### progress: no deadlock, every scheduler completes, every operation returns
+
+  The sections above are safety: a model whose `toRelease` step kept the lock would satisfy them
+  all. Here: `n` threads (any `n`), any programs, any creator script (creators terminate: `inCreator
+  → exiting` is one step), both modes. -/
+
+/-- `no_deadlock`: a reachable state in which none of the `n` threads can move is the state where
+    every thread has finished its program and the lock is free. -/
+theorem no_deadlock (cfg : Cfg) (prog : Tid → List Op) (n : Nat) (hn : ∀ t, n ≤ t → prog t = [])
+    (sched : List Tid) (hstuck : ∀ t, t < n → enabled (reach cfg prog sched) t = false) :
+    Quiescent (reach cfg prog sched) :=
+  stuck_is_done n _ (inv_reach cfg prog sched).mutex (outside_run cfg n sched _ (outside_init cfg prog n hn)) hstuck
+
+/-- the hypothesis "reachable" (lock coherence) is what makes `no_deadlock` true: in a state where the
+    lock is held by a thread outside its critical section — what a `toRelease` that forgot to release
+    leaves behind — nobody can move although thread 1 has not finished. -/
+theorem stuck_needs_coherence :
+    let st : State := { threads := fun t => if t = 1 then { ops := [], pc := .wantLock (.get 0), results := [] }
+                                            else { ops := [], pc := .idle, results := [] }
+                        lock := some 0, cache := fun _ => none, calls := 0, hist := [] }
+    enabled st 0 = false ∧ enabled st 1 = false ∧ (st.threads 1).pc ≠ .idle := by decide
+
+/-- `every_scheduler_completes`: from any reachable state, ANY scheduler — micro-steps (`step`) or turns
+    (`turn`), any choice of the next thread as long as it never idles while somebody can move — reaches
+    within `8 × (number of operations)` moves the state where every thread is idle with no operations
+    left and the lock is free. No fairness assumption is needed: programs are finite. -/
+theorem every_scheduler_completes (cfg : Cfg) (prog : Tid → List Op) (n : Nat) (hn : ∀ t, n ≤ t → prog t = [])
+    (mv : State → Tid → State) (hmv : IsMove cfg mv) (pick : State → Option Tid) (hp : NeverIdles n pick)
+    (sched : List Tid) (fuel : Nat) (hf : 8 * totalOps prog n ≤ fuel) :
+    Quiescent (drain mv pick fuel (reach cfg prog sched)) := by
+  apply drain_quiescent cfg n mv hmv pick hp fuel _ (inv_reach cfg prog sched)
+    (outside_run cfg n sched _ (outside_init cfg prog n hn))
+  have := work_run_le cfg n sched (init cfg prog)
+  rw [work_init] at this
+  exact Nat.le_trans this hf
+
+/-- `finish_completes`: the model's own fair completion (`finish`: lowest-numbered enabled thread first, at
+    turn granularity) with the driver's fuel completes every run. -/
+theorem finish_completes (cfg : Cfg) (prog : Tid → List Op) (n : Nat) (hn : ∀ t, n ≤ t → prog t = [])
+    (sched : List Tid) (fuel : Nat) (hf : 8 * totalOps prog n ≤ fuel) :
+    Quiescent (finish cfg n fuel (reach cfg prog sched)) := by
+  rw [finish_eq_drain]
+  exact every_scheduler_completes cfg prog n hn _ (turn_isMove cfg) _ (lowestEnabled_neverIdles n) sched fuel hf
+
+/-- … also after a prefix given in turns, which is what `cache.run` with `finish: true` executes -/
+theorem driver_finish_completes (cfg : Cfg) (prog : Tid → List Op) (n : Nat) (hn : ∀ t, n ≤ t → prog t = [])
+    (turns : List Tid) :
+    Quiescent (finish cfg n (8 * totalOps prog n + 8) (runTurns cfg (init cfg prog) turns)) := by
+  obtain ⟨sched, hs⟩ := turns_are_schedules cfg turns (init cfg prog)
+  rw [hs]
+  exact finish_completes cfg prog n hn sched _ (Nat.le_add_right _ _)
+
+/-- `completion_reachable`: every reachable state can be continued to the all-done state. -/
+theorem completion_reachable (cfg : Cfg) (prog : Tid → List Op) (n : Nat) (hn : ∀ t, n ≤ t → prog t = [])
+    (sched : List Tid) : ∃ s, Quiescent (reach cfg prog (sched ++ s)) := by
+  obtain ⟨s, hs⟩ := drain_is_run cfg (turn cfg) (turn_isMove cfg) (fun st => (List.range n).find? (enabled st))
+    (8 * totalOps prog n) (reach cfg prog sched)
+  refine ⟨s, ?_⟩
+  have := finish_completes cfg prog n hn sched _ (Nat.le_refl _)
+  rw [finish_eq_drain, hs] at this
+  simpa [reach, run_append] using this
+
+/-- `every_op_returns`: in the all-done state every thread has one result per operation of its program, in
+    order, of the right kind: a `get` returned a value or its creator's exception, a `clear` returned. -/
+theorem every_op_returns (cfg : Cfg) (prog : Tid → List Op) (sched : List Tid) (t : Tid)
+    (hq : Quiescent (reach cfg prog sched)) :
+    ((reach cfg prog sched).threads t).results.reverse.map Res.ofGet = (prog t).map Op.isGet := by
+  have h := kinds_run cfg prog sched _ (kinds_init cfg prog) t
+  rw [(hq.2 t).1, (hq.2 t).2] at h
+  simpa [Pc.pendingKind] using h
+
+/-- `every_get_returns`: the `i`-th operation of thread `t`, if it is a `get`, returned a value or raised the
+    exception of the creator call it made. -/
+theorem every_get_returns (cfg : Cfg) (prog : Tid → List Op) (sched : List Tid) (t : Tid)
+    (hq : Quiescent (reach cfg prog sched)) (i : Nat) (k : Key) (hi : (prog t)[i]? = some (.get k)) :
+    ∃ c, ((reach cfg prog sched).threads t).results.reverse[i]? = some (.val c) ∨
+         ((reach cfg prog sched).threads t).results.reverse[i]? = some (.raised c) := by
+  have h := congrArg (fun l => l[i]?) (every_op_returns cfg prog sched t hq)
+  simp only [List.getElem?_map, hi, Option.map_some, Op.isGet] at h
+  cases hr : ((reach cfg prog sched).threads t).results.reverse[i]? with
+  | none => simp [hr] at h
+  | some r =>
+    rw [hr] at h
+    cases r with
+    | val c => exact ⟨c, .inl rfl⟩
+    | raised c => exact ⟨c, .inr rfl⟩
+    | cleared => simp [Res.ofGet] at h
+
+theorem exProg_outside : ∀ t, 2 ≤ t → exProg t = [] := by
+  intro t ht
+  match t, ht with
+  | t + 2, _ => rfl
+
+example : Quiescent (finish exCfg 2 32 (reach exCfg exProg [0, 0, 1, 1])) :=
+  finish_completes exCfg exProg 2 exProg_outside [0, 0, 1, 1] 32 (by decide)
+
+example : ((finish exCfg 2 32 (reach exCfg exProg [0, 0, 1, 1])).threads 0).results = [.val 1, .raised 0] ∧
+    ((finish exCfg 2 32 (reach exCfg exProg [0, 0, 1, 1])).threads 1).results = [.cleared, .val 1] ∧
+    (finish exCfg 2 32 (reach exCfg exProg [0, 0, 1, 1])).lock = none := by decide
+
+/-! ### `LoaderCache.clear_pipes` next to look-ups (`CacheTS.Scan`; before fix fa2daa9: `CacheTS.ScanPre`) -/
+section ClearPipes
+open Pypyr.CacheTS.Scan
+
+/-- the state of the extended system after a schedule; `sk` = the reserved key whose look-up is the snapshot's
+    critical section -/
+abbrev xreach (cfg : Cfg) (sk : Key) (prog : Tid → List SOp) (sched : List Tid) : XState :=
+  xrun cfg sk (xinit cfg prog) sched
+
+/-- `clear_pipes_keeps_invariant`: threads that run `clear_pipes` next to look-ups and clears leave the whole
+    inductive invariant of the one-lock system intact: the snapshot is a read under the lock, the single-loader
+    form is one unlocked read, the clearing happens on the Loaders' own locks. So every safety clause above holds
+    for such programs too: -/
+theorem clear_pipes_keeps_invariant (cfg : Cfg) (sk : Key) (prog : Tid → List SOp) (sched : List Tid) :
+    Inv cfg (xreach cfg sk prog sched).base :=
+  xrun_inv cfg sk sched _ (xinit_inv cfg prog)
+
+theorem clear_pipes_mutex (cfg : Cfg) (sk : Key) (prog : Tid → List SOp) (sched : List Tid) (t u : Tid)
+    (ht : (((xreach cfg sk prog sched).base).threads t).pc.inCS = true)
+    (hu : (((xreach cfg sk prog sched).base).threads u).pc.inCS = true) : t = u := by
+  have h := (clear_pipes_keeps_invariant cfg sk prog sched).mutex
+  have := (h t).1 ht
+  have := (h u).1 hu
+  simp_all
+
+theorem clear_pipes_refines_atomic (cfg : Cfg) (sk : Key) (prog : Tid → List SOp) (sched : List Tid)
+    (hnc : cfg.noCache = false) :
+    specRun cfg (xreach cfg sk prog sched).base.hist = some (effCache (xreach cfg sk prog sched).base) :=
+  (clear_pipes_keeps_invariant cfg sk prog sched).refines hnc
+
+/-- single flight, same object, no remembered failure, clear refreshes — for the table of a `LoaderCache` some
+    of whose users call `clear_pipes` concurrently -/
+theorem clear_pipes_clauses (cfg : Cfg) (sk : Key) (prog : Tid → List SOp) (sched : List Tid) (hnc : cfg.noCache = false) :
+    (∀ {t k c h}, (Ev.create t k c :: h) <:+ (xreach cfg sk prog sched).base.hist → epochIds k h = []) ∧
+    (∀ {e t k c h}, (e :: h) <:+ (xreach cfg sk prog sched).base.hist → (e = .hit t k c ∨ e = .create t k c) →
+        ∀ c' ∈ epochIds k h, c' = c) ∧
+    (∀ {t k c h}, (Ev.hit t k c :: h) <:+ (xreach cfg sk prog sched).base.hist →
+        cfg.seed k = some c ∨ (∃ t', lastOn k h = some (.hit t' k c)) ∨ (∃ t', lastOn k h = some (.create t' k c))) := by
+  have hU := specRunU_of_specRun (clear_pipes_refines_atomic cfg sk prog sched hnc)
+  exact ⟨fun hs => traceU_single_flight hU hs, fun hs he => traceU_same_object hU hs he,
+         fun hs => traceU_hit_justified hU hs⟩
+
+/-- `clear_pipes_clears_what_it_read` — the clear clause for the repaired `clear_pipes`: in every reachable state,
+    every finished call of every thread ended normally (no `RuntimeError`) and cleared exactly the Loader objects
+    it had read — for `clear_pipes()` the list read under the cache's lock, for `clear_pipes(name)` the Loader
+    the table held for `name` at its one read — in order, whatever other threads did meanwhile. -/
+theorem clear_pipes_clears_what_it_read (cfg : Cfg) (sk : Key) (prog : Tid → List SOp) (sched : List Tid) (t : Tid)
+    (hoff : ((xreach cfg sk prog sched).scan t).spc = .off) :
+    ((xreach cfg sk prog sched).scan t).sres.map SRes.cleared = ((xreach cfg sk prog sched).scan t).snaps ∧
+    ∀ r ∈ ((xreach cfg sk prog sched).scan t).sres, ∃ cs, r = .swept cs := by
+  have h := sweepOk_run cfg sk sched _ (sweepOk_init cfg prog) t
+  unfold SweepOk at h
+  rw [hoff] at h
+  refine ⟨h.2, fun r hr => ?_⟩
+  have := h.1 r hr
+  cases r with
+  | swept cs => exact ⟨cs, rfl⟩
+  | sizeChanged cs => cases this
+
+theorem xrun_snoc (cfg : Cfg) (sk : Key) : ∀ (sched : List Tid) (t : Tid) (x : XState),
+    xrun cfg sk x (sched ++ [t]) = xstep cfg sk (xrun cfg sk x sched) t := by
+  intro sched
+  induction sched with
+  | nil => intro t x; rfl
+  | cons u us ih => intro t x; exact ih t _
+
+/-- `clear_pipes_snapshot_is_table` — and what `clear_pipes()` reads under the lock IS the table of that moment:
+    every Loader stored (under an unseeded key) when the snapshot is taken is in the list, and nothing else is.
+    Hence: every loader present at the snapshot is cleared when the call returns; a loader stored AFTER the
+    snapshot (by a look-up that took the lock later) is not in the list and is not cleared by this call
+    (`clear_pipes_added_later_not_cleared`). -/
+theorem clear_pipes_snapshot_is_table (cfg : Cfg) (sk : Key) (prog : Tid → List SOp) (sched : List Tid)
+    (hnc : cfg.noCache = false) (t : Tid) (snap : Option (List Obj))
+    (hs : ((xreach cfg sk prog sched).scan t).spc = .snapping snap)
+    (hl : ((xreach cfg sk prog sched).base.threads t).pc = .locked (.get sk)) :
+    ∃ l, ((xreach cfg sk prog (sched ++ [t])).scan t).spc = .snapping (some l) ∧
+      (∀ k c, cfg.seed k = none → (xreach cfg sk prog sched).base.cache k = some c → c ∈ l) ∧
+      (∀ c ∈ l, ∃ k, (xreach cfg sk prog sched).base.cache k = some c) := by
+  refine ⟨((visible (xreach cfg sk prog sched).base).map (·.2)), ?_, ?_, ?_⟩
+  · rw [show xreach cfg sk prog (sched ++ [t]) = xstep cfg sk (xreach cfg sk prog sched) t from xrun_snoc cfg sk sched t _]
+    exact snapshot_step cfg sk _ t snap hs hl
+  · intro k c hseed hc
+    exact List.mem_map.mpr ⟨(k, c), (mem_visible (clear_pipes_keeps_invariant cfg sk prog sched) hnc hseed).2 hc, rfl⟩
+  · intro c hc
+    obtain ⟨kc, hkc, rfl⟩ := List.mem_map.mp hc
+    refine ⟨kc.1, ?_⟩
+    have := (List.mem_filter.mp hkc).2
+    simpa using this
+
+/-- two threads. T0: `get 0` (loader 0 is made and stored), then `clear_pipes()`; T1: `get 1`. Key 9 is the
+    reserved key. -/
+def cpProg : Tid → List SOp
+  | 0 => [.base (.get 0), .clearPipes]
+  | 1 => [.base (.get 1)]
+  | _ => []
+def cpCfg : Cfg := { seed := fun k => if k = 9 then some 99 else none, fails := fun _ => false, noCache := false }
+/-- T0 finishes its `get`, takes the snapshot ([loader 0]) under the lock and is about to clear loader 0;
+    T1 runs its whole `get 1`; T0 clears loader 0 and returns. -/
+def cpSched : List Tid := [0, 0, 0, 0, 0, 0, 0, 0, 0, 0, 0, 0, 0, 0, 0, 1, 1, 1, 1, 1, 1, 1, 1, 0, 0, 0]
+
+/-- `clear_pipes_added_later_not_cleared` — stated precisely: loader 1, stored after T0's snapshot, is in the table
+    when T0's `clear_pipes()` returns and has NOT been cleared by it; the call cleared its snapshot, `[0]`. -/
+theorem clear_pipes_added_later_not_cleared :
+    ((xreach cpCfg 9 cpProg cpSched).scan 0).sres = [.swept [0]] ∧
+    ((xreach cpCfg 9 cpProg cpSched).scan 0).snaps = [[0]] ∧
+    visible (xreach cpCfg 9 cpProg cpSched).base = [(0, 0), (1, 1)] := by decide
+
+/-- the hypotheses of the two theorems above are satisfiable: T0 at the lock-protected read; T0 finished -/
+example : ((xreach cpCfg 9 cpProg [0, 0, 0, 0, 0, 0, 0, 0, 0, 0]).scan 0).spc = .snapping none ∧
+    ((xreach cpCfg 9 cpProg [0, 0, 0, 0, 0, 0, 0, 0, 0, 0]).base.threads 0).pc = .locked (.get 9) ∧
+    ((xreach cpCfg 9 cpProg cpSched).scan 0).spc = .off := by decide
+
+/-- `clear_pipes(name)`: one unlocked read; clears the Loader the table holds for `name` then (none: nothing) -/
+example : ((xreach cpCfg 9 (fun t => if t = 0 then [.base (.get 0), .clearPipesOf 0, .clearPipesOf 1] else [])
+      [0, 0, 0, 0, 0, 0, 0, 0, 0, 0, 0, 0, 0, 0, 0]).scan 0).sres = [.swept [], .swept [0]] := by decide
+
+/-! #### before fix fa2daa9: the table was read and iterated without the lock (`CacheTS.ScanPre`) -/
+
+/-- the pre-fix sweep only read, too: the safety clauses were never affected … -/
+theorem clear_pipes_pre_fix_keeps_invariant (cfg : Cfg) : ∀ (sched : List Tid) (x : ScanPre.XState),
+    Inv cfg x.base → Inv cfg (ScanPre.xrun cfg x sched).base := by
+  intro sched
+  induction sched with
+  | nil => intro x h; exact h
+  | cons t ts ih =>
+    intro x h
+    apply ih
+    unfold ScanPre.xstep
+    simp only []
+    split
+    · split
+      · exact h
+      · split <;> exact h
+    · split <;> exact h
+    · exact h
+    · split
+      · split
+        · exact h
+        · exact inv_step cfg _ t (inv_feed cfg x.base t _ h)
+        · exact h
+        · exact h
+      · exact inv_step cfg _ t h
+
+def cpCfgPre : Cfg := { seed := fun _ => none, fails := fun _ => false, noCache := false }
+/-- T0 finishes its `get`, makes the iterator (size 1), clears loader 0's pipelines (takes and releases that
+    Loader's lock); T1 runs its whole `get 1`: the table now has 2 entries; T0's next `next()` raises. -/
+def cpSchedPre : List Tid := [0, 0, 0, 0, 0, 0, 0, 0, 0, 0, 0, 0, 1, 1, 1, 1, 1, 1, 1, 1, 0]
+
+/-- `clear_pipes_race_pre_fix` — … but the sweep itself could end in `RuntimeError: dictionary changed size during
+    iteration`, because another thread's look-up stored a new Loader while it iterated (fixed by fa2daa9). -/
+theorem clear_pipes_race_pre_fix :
+    ((ScanPre.xrun cpCfgPre (ScanPre.xinit cpCfgPre cpProg) cpSchedPre).scan 0).sres = [.sizeChanged [0]] ∧
+    (ScanPre.xrun cpCfgPre (ScanPre.xinit cpCfgPre cpProg) cpSchedPre).base.hist = [.create 1 1 1, .create 0 0 0] := by
+  decide
+
+/-- T0: `get 0`, `get 1` (two loaders), then `clear_pipes()`; T1: `get 2`. -/
+def cpProg2 : Tid → List SOp
+  | 0 => [.base (.get 0), .base (.get 1), .clearPipes]
+  | 1 => [.base (.get 2)]
+  | _ => []
+def cpSched2 : List Tid :=
+  [0, 0, 0, 0, 0, 0, 0, 0, 0, 0, 0, 0, 0, 0, 0, 0, 0, 0, 0, 0, 1, 1, 1, 1, 1, 1, 1, 1, 0]
+
+/-- `clear_pipes_partial_pre_fix` — and then it had cleared only the loaders before the failing point: loader 1
+    was in the table during the whole call and kept its pipelines ("a clear makes the next look-up create afresh"
+    failed for it). With the repaired code the same programs clear both (`clear_pipes_clears_what_it_read`). -/
+theorem clear_pipes_partial_pre_fix :
+    ((ScanPre.xrun cpCfgPre (ScanPre.xinit cpCfgPre cpProg2) cpSched2).scan 0).sres = [.sizeChanged [0]] ∧
+    visible (ScanPre.xrun cpCfgPre (ScanPre.xinit cpCfgPre cpProg2) cpSched2).base = [(0, 0), (1, 1), (2, 2)] := by
+  decide
+
+example : ((xreach cpCfg 9 cpProg2 ([0, 0, 0, 0, 0, 0, 0, 0, 0, 0, 0, 0, 0, 0, 0, 0, 0, 0, 0, 0, 0, 0, 0, 0, 0] ++
+      [1, 1, 1, 1, 1, 1, 1, 1] ++ [0, 0, 0, 0, 0, 0, 0, 0])).scan 0).sres = [.swept [0, 1]] := by decide
+
+end ClearPipes
+
+/-! ### two locks: the pipeline cache's creator looks up `file_cache` (`CacheTS.Nest`) -/
+section TwoLocks
+open Pypyr.CacheTS.Nest
+
+abbrev nreach (cfg : NCfg) (prog : Tid → List NOp) (sched : List Tid) : NState := nrun cfg (ninit prog) sched
+
+theorem ninv_reach (cfg : NCfg) (prog : Tid → List NOp) (sched : List Tid) : NInv (nreach cfg prog sched) :=
+  ninv_run cfg sched _ (ninv_init prog)
+
+/-- `nest_mutex_outer` / `nest_mutex_inner`: each lock has at most one thread between its acquire and release
+    (for the outer lock that span includes the nested look-up of the inner cache). -/
+theorem nest_mutex_outer (cfg : NCfg) (prog : Tid → List NOp) (sched : List Tid) (t u : Tid)
+    (ht : ((nreach cfg prog sched).threads t).pc.inCSO = true)
+    (hu : ((nreach cfg prog sched).threads u).pc.inCSO = true) : t = u := by
+  have h := (ninv_reach cfg prog sched).mutexO
+  have := (h t).1 ht
+  have := (h u).1 hu
+  simp_all
+
+theorem nest_mutex_inner (cfg : NCfg) (prog : Tid → List NOp) (sched : List Tid) (t u : Tid)
+    (ht : ((nreach cfg prog sched).threads t).pc.inCSI = true)
+    (hu : ((nreach cfg prog sched).threads u).pc.inCSI = true) : t = u := by
+  have h := (ninv_reach cfg prog sched).mutexI
+  have := (h t).1 ht
+  have := (h u).1 hu
+  simp_all
+
+/-- `nest_lock_order`: the holder of the inner lock never waits for the outer lock (the order is outer → inner
+    only), so the wait-for relation has no cycle. -/
+theorem nest_lock_order (cfg : NCfg) (prog : Tid → List NOp) (sched : List Tid) (t : Tid)
+    (h : (nreach cfg prog sched).lockI = some t) :
+    (∀ op, ((nreach cfg prog sched).threads t).pc ≠ .wantO op) ∧
+    (∀ ko ko' c, ((nreach cfg prog sched).threads t).pc ≠ .reWant ko ko' c) := by
+  have hcs := ((ninv_reach cfg prog sched).mutexI t).2 h
+  constructor
+  · intro op e; rw [e] at hcs; cases hcs
+  · intro ko ko' c e; rw [e] at hcs; cases hcs
+
+/-- `nest_refines`: per layer, the history is a trace of the atomic get-or-create discipline. -/
+theorem nest_refines (cfg : NCfg) (prog : Tid → List NOp) (sched : List Tid) :
+    specRunU emptyTab (nreach cfg prog sched).histO = some (effO (nreach cfg prog sched)) ∧
+    specRunU emptyTab (nreach cfg prog sched).histI = some (effI (nreach cfg prog sched)) :=
+  ⟨(ninv_reach cfg prog sched).refinesO, (ninv_reach cfg prog sched).refinesI⟩
+
+/-- `nest_single_flight`: per layer, a creation for a key succeeds only when nothing was created or served for
+    it since that layer's last clear — although the outer creator spans a whole look-up of the inner cache during
+    which other threads run. -/
+theorem nest_single_flight (cfg : NCfg) (prog : Tid → List NOp) (sched : List Tid) {t : Tid} {k : Key} {c : Obj}
+    {h : List Ev} :
+    ((.create t k c :: h) <:+ (nreach cfg prog sched).histO → epochIds k h = []) ∧
+    ((.create t k c :: h) <:+ (nreach cfg prog sched).histI → epochIds k h = []) :=
+  ⟨traceU_single_flight (nest_refines cfg prog sched).1, traceU_single_flight (nest_refines cfg prog sched).2⟩
+
+/-- `nest_same_object`: per layer, everything created or served under a key since the last clear is one object. -/
+theorem nest_same_object (cfg : NCfg) (prog : Tid → List NOp) (sched : List Tid) {e : Ev} {t : Tid} {k : Key} {c : Obj}
+    {h : List Ev} (he : e = .hit t k c ∨ e = .create t k c) :
+    ((e :: h) <:+ (nreach cfg prog sched).histO → ∀ c' ∈ epochIds k h, c' = c) ∧
+    ((e :: h) <:+ (nreach cfg prog sched).histI → ∀ c' ∈ epochIds k h, c' = c) :=
+  ⟨fun hs => traceU_same_object (nest_refines cfg prog sched).1 hs he,
+   fun hs => traceU_same_object (nest_refines cfg prog sched).2 hs he⟩
+
+/-- `nest_hit_justified`: per layer, a hit serves what the newest event on that key created or served — never
+    after a failure (also a failure of the NESTED look-up, which fails the outer creator) or a clear. -/
+theorem nest_hit_justified (cfg : NCfg) (prog : Tid → List NOp) (sched : List Tid) {t : Tid} {k : Key} {c : Obj}
+    {h : List Ev} :
+    ((.hit t k c :: h) <:+ (nreach cfg prog sched).histO →
+      (∃ t', lastOn k h = some (.hit t' k c)) ∨ (∃ t', lastOn k h = some (.create t' k c))) ∧
+    ((.hit t k c :: h) <:+ (nreach cfg prog sched).histI →
+      (∃ t', lastOn k h = some (.hit t' k c)) ∨ (∃ t', lastOn k h = some (.create t' k c))) := by
+  constructor
+  · intro hs
+    rcases traceU_hit_justified (nest_refines cfg prog sched).1 hs with h | h | h
+    · simp [emptyTab] at h
+    · exact .inl h
+    · exact .inr h
+  · intro hs
+    rcases traceU_hit_justified (nest_refines cfg prog sched).2 hs with h | h | h
+    · simp [emptyTab] at h
+    · exact .inl h
+    · exact .inr h
+
+/-- `nest_no_deadlock`: ASSUMING no creator re-enters its own cache (`NOp.noRe`), a reachable state in which
+    none of the threads can move is the all-done state with both locks free. -/
+theorem nest_no_deadlock (cfg : NCfg) (prog : Tid → List NOp) (n : Nat) (hn : ∀ t, n ≤ t → prog t = [])
+    (hre : ∀ t, ∀ op ∈ prog t, op.noRe = true) (sched : List Tid)
+    (hstuck : ∀ t, t < n → nenabled (nreach cfg prog sched) t = false) : NQuiescent (nreach cfg prog sched) :=
+  nstuck_is_done n _ (ninv_reach cfg prog sched).mutexO (ninv_reach cfg prog sched).mutexI
+    (noRe_run cfg sched _ (noRe_init prog hre)) (noutside_run cfg n sched _ (noutside_init prog n hn)) hstuck
+
+/-- `nest_every_scheduler_completes`: under the same assumption any scheduler that never idles while somebody
+    can move completes every run within `15 × (number of operations)` moves. -/
+theorem nest_every_scheduler_completes (cfg : NCfg) (prog : Tid → List NOp) (n : Nat) (hn : ∀ t, n ≤ t → prog t = [])
+    (hre : ∀ t, ∀ op ∈ prog t, op.noRe = true)
+    (mv : NState → Tid → NState) (hmv : NIsMove cfg mv) (pick : NState → Option Tid) (hp : NNeverIdles n pick)
+    (sched : List Tid) (fuel : Nat) (hf : 15 * ntotalOps prog n ≤ fuel) :
+    NQuiescent (ndrain mv pick fuel (nreach cfg prog sched)) := by
+  apply ndrain_quiescent cfg n mv hmv pick hp fuel _ (ninv_reach cfg prog sched)
+    (noRe_run cfg sched _ (noRe_init prog hre)) (noutside_run cfg n sched _ (noutside_init prog n hn))
+  have := nwork_run_le cfg n sched (ninit prog)
+  rw [nwork_init] at this
+  exact Nat.le_trans this hf
+
+theorem nest_finish_completes (cfg : NCfg) (prog : Tid → List NOp) (n : Nat) (hn : ∀ t, n ≤ t → prog t = [])
+    (hre : ∀ t, ∀ op ∈ prog t, op.noRe = true) (sched : List Tid) (fuel : Nat) (hf : 15 * ntotalOps prog n ≤ fuel) :
+    NQuiescent (nfinish cfg n fuel (nreach cfg prog sched)) := by
+  rw [nfinish_eq_drain]
+  exact nest_every_scheduler_completes cfg prog n hn hre _ (nturn_isMove cfg) _ (nlowestEnabled_neverIdles n) sched fuel hf
+
+/-- T0 and T1 both ask the outer cache for key 0 (inner key 0); T2 asks the inner cache directly; inner creator
+    call 0 raises. -/
+def nxProg : Tid → List NOp
+  | 0 => [.getO 0 0, .getO 0 0]
+  | 1 => [.getO 0 0]
+  | 2 => [.getI 0, .clearI]
+  | _ => []
+def nxCfg : NCfg := { failsO := fun _ => false, failsI := fun n => n == 0 }
+
+example : (nfinish nxCfg 3 75 (nreach nxCfg nxProg [0, 0, 2, 1, 0])).histO =
+      [.hit 1 0 1, .create 0 0 1, .fail 0 0 0] ∧
+    (nfinish nxCfg 3 75 (nreach nxCfg nxProg [0, 0, 2, 1, 0])).histI =
+      [.clear 2, .hit 2 0 1, .create 0 0 1, .fail 0 0 0] ∧
+    (nfinish nxCfg 3 75 (nreach nxCfg nxProg [0, 0, 2, 1, 0])).lockO = none := by decide
+
+theorem nxProg_outside : ∀ t, 3 ≤ t → nxProg t = [] := by
+  intro t ht
+  match t, ht with
+  | t + 3, _ => rfl
+
+theorem nxProg_noRe : ∀ t, ∀ op ∈ nxProg t, op.noRe = true := by
+  intro t op h
+  match t with
+  | 0 => simp [nxProg] at h; rcases h with rfl | rfl <;> rfl
+  | 1 => simp [nxProg] at h; subst h; rfl
+  | 2 => simp [nxProg] at h; rcases h with rfl | rfl <;> rfl
+  | t + 3 => simp [nxProg] at h
+
+example : NQuiescent (nfinish nxCfg 3 75 (nreach nxCfg nxProg [0, 0, 2, 1, 0])) :=
+  nest_finish_completes nxCfg nxProg 3 nxProg_outside nxProg_noRe [0, 0, 2, 1, 0] 75 (by decide)
+
+/-- `reentrant_get_deadlocks` — why the assumption is needed: ONE thread whose creator looks up the cache it is
+    creating for (`threading.Lock` is not re-entrant) holds the outer lock and waits for it for ever: nobody can
+    move, the thread never returns. -/
+theorem reentrant_get_deadlocks :
+    let st := nfinish nxCfg 1 100 (ninit (fun t => if t = 0 then [.getRe 0 1] else []))
+    (st.threads 0).pc = .reWant 0 1 0 ∧ st.lockO = some 0 ∧ nenabled st 0 = false := by decide
+
+end TwoLocks
+
+/-! ### `add_sys_path`, one set operation at a time -/
+
+/-- `syspath_once_fine`: with `_known_dirs` / `_missing_dirs` read and written outside the lock one set
+    operation at a time — any number of threads, any interleaving — `sys.path` stays duplicate-free: the
+    membership test and the append are under `_sys_path_lock`, the sets only decide whether to get there. -/
+theorem syspath_once_fine (ex : Nat → Bool) (base : List Nat) (prog : Tid → List Nat) (sched : List Tid)
+    (hbase : base.Nodup) : (fRun ex (fInit base prog) sched).sysPath.Nodup :=
+  (fInv_run ex base sched _ (fInv_init ex base prog hbase)).nodup
+
+theorem syspath_keeps_prior_fine (ex : Nat → Bool) (base : List Nat) (prog : Tid → List Nat)
+    (sched : List Tid) (hbase : base.Nodup) : base <+: (fRun ex (fInit base prog) sched).sysPath :=
+  (fInv_run ex base sched _ (fInv_init ex base prog hbase)).keeps
+
+/-- `syspath_added_fine`: a path in `_known_dirs` that exists is on `sys.path` — so the unlocked early return
+    (`path in _known_dirs and path not in _missing_dirs`) never skips a directory that still has to be added. -/
+theorem syspath_added_fine (ex : Nat → Bool) (base : List Nat) (prog : Tid → List Nat) (sched : List Tid)
+    (hbase : base.Nodup) (p : Nat) (hk : p ∈ (fRun ex (fInit base prog) sched).known)
+    (hex : ex p = true) : p ∈ (fRun ex (fInit base prog) sched).sysPath :=
+  (fInv_run ex base sched _ (fInv_init ex base prog hbase)).known p hk hex
+
+/-- both threads pass the unlocked test for path 7 before either has added it -/
+example : (fRun (fun p => p == 7) (fInit [1] exSpProg)
+    [0, 1, 0, 1, 0, 1, 0, 1, 0, 1, 0, 0, 0, 0, 1, 1, 1, 1, 0, 0, 0, 0, 0]).sysPath = [1, 7] := by decide
+
+/-! ### `WorldOk` for the file loader -/
+section ResolveWorld
+open Pypyr.CacheTS.Stack
+
+/-- `worldOk_of_resolve`: the world whose file loader is `PypyrModel/Resolve.lean`'s `get_pipeline_path`, read
+    through ONE `Reading` (one process working directory, one state of the symlinks), answers requests by
+    their cache key. -/
+theorem worldOk_of_resolve (fs : Resolve.Fs) (rd : Reading) (enc : Resolve.Path → Nat) (fileVer : Nat → Ver)
+    (custom : Nat → Rq → Option Ver)
+    (hc : ∀ l r r', l ≠ 0 → Rq.key r = Rq.key r' → custom l r = custom l r') :
+    WorldOk (fileWorld fs rd enc fileVer custom) :=
+  worldOk_fileWorld fs rd enc fileVer custom hc
+
+/-- … so for it caching is transparent as long as neither the files nor the process cwd change -/
+theorem cached_equals_uncached_fileWorld (fs : Resolve.Fs) (rd : Reading) (enc : Resolve.Path → Nat)
+    (fileVer : Nat → Ver) (ops : List LOp) (hno : ∀ w', LOp.world w' ∉ ops) :
+    ∀ x ∈ session (fileWorld fs rd enc fileVer (fun _ _ => none)) LState.init Flags.none ops, x.1.ran = x.2.2 :=
+  cached_equals_uncached _ (worldOk_of_resolve fs rd enc fileVer _ (fun _ _ _ _ _ => rfl)) ops hno
+
+def cwdFs : Resolve.Fs :=
+  { cwd := ["w"], builtin := ["b"], isFile := fun p => p == ["a", "sub", "p.yaml"], dirExists := fun _ => true }
+def cwdRq : Rq := { pt := true, ps := "sub", name := "p" }
+/-- how a process whose working directory is `dir` reads `cwdRq` (`readingAt dir`, written out: string
+    splitting does not reduce in the kernel) -/
+def cwdReading (dir : Resolve.Path) : Reading := { nameOf := fun _ => .rel ["p"], parentDir := fun _ => dir ++ ["sub"] }
+
+/-- `resolve_depends_on_process_cwd` — the cwd dependence, exhibited: the SAME request (relative parent `sub`)
+    — one cache key — means `/a/sub/p.yaml` to a process in `/a` and nothing to a process in `/c`. An `os.chdir`
+    between two look-ups is a change of the world (`LOp.world`): the theorems above do not cover sessions that
+    change directory without saying so, and the warm pipeline cache keeps serving the first answer. -/
+theorem resolve_depends_on_process_cwd :
+    fileResolve cwdFs (cwdReading ["a"]) cwdRq = some ["a", "sub", "p.yaml"] ∧
+    fileResolve cwdFs (cwdReading ["c"]) cwdRq = none := by decide +kernel
+
+end ResolveWorld
 
 end Pypyr.C13
